@@ -118,16 +118,20 @@ func (v *ScriptView) writeCreateSQLForAColumn(attrType *sysl.Type, tableName, at
 	if isPrimaryKey {
 		*primaryKeys = append(*primaryKeys, attrName)
 	}
-	if typeRef := attrType.GetTypeRef(); typeRef != nil {
-		path0 := typeRef.GetRef().Path[0]
-		path1 := typeRef.GetRef().Path[1]
+	if attrType.GetTypeRef() != nil {
+		path0, path1, isForeignKey := foreignKeyTarget(attrType)
 		datatype := visitedAttributes[path0+"."+path1]
 		s = fmt.Sprintf("  %s %s,\n",
 			attrName, datatype)
-		fkName := strings.ToUpper(tableName + "_" + attrName + "_FK")
-		*foreignKeyConstraints = append(
-			*foreignKeyConstraints,
-			"  CONSTRAINT "+fkName+" FOREIGN KEY("+attrName+") REFERENCES "+path0+" ("+path1+"),")
+		if isForeignKey {
+			fkName := strings.ToUpper(tableName + "_" + attrName + "_FK")
+			*foreignKeyConstraints = append(
+				*foreignKeyConstraints,
+				"  CONSTRAINT "+fkName+" FOREIGN KEY("+attrName+") REFERENCES "+path0+" ("+path1+"),")
+		} else {
+			v.warnf("table %s: the type of column %s is not a <table>.<column> reference; no foreign key is generated",
+				tableName, attrName)
+		}
 		visitedAttributes[tableName+"."+attrName] = datatype
 	} else {
 		if isAutoIncrement {
@@ -176,23 +180,27 @@ func (v *ScriptView) writeModifySQLForAColumn(attrTypeOld, attrTypeNew *sysl.Typ
 	datatype := ""
 	fkName := strings.ToUpper(tableName + "_" + attrName + "_FK")
 	if typeRefNew != nil {
-		datatype = visitedAttributes[typeRefNew.GetRef().Path[0]+"."+typeRefNew.GetRef().Path[1]]
-		if typeRefOld == nil {
+		refTable, refColumn, isForeignKey := foreignKeyTarget(attrTypeNew)
+		oldTable, oldColumn, _ := foreignKeyTarget(attrTypeOld)
+		datatype = visitedAttributes[refTable+"."+refColumn]
+		if !isForeignKey {
+			v.warnf("table %s: the type of column %s is not a <table>.<column> reference; no foreign key is generated",
+				tableName, attrName)
+		} else if typeRefOld == nil {
 			// typeref added. Add Foreign Key Constraint
 			v.stringBuilder.WriteString(fmt.Sprintf("ALTER TABLE %s ALTER COLUMN %s TYPE %s;\n",
 				tableName, attrName, datatype))
 			v.stringBuilder.WriteString(fmt.Sprintf(
 				"ALTER TABLE %s ADD CONSTRAINT "+fkName+" FOREIGN KEY(%s) REFERENCES %s(%s);\n",
-				tableName, attrName, typeRefNew.GetRef().Path[0], typeRefNew.GetRef().Path[1]))
-		} else if typeRefOld.GetRef().Path[0] != typeRefNew.GetRef().Path[0] ||
-			typeRefOld.GetRef().Path[1] != typeRefNew.GetRef().Path[1] {
+				tableName, attrName, refTable, refColumn))
+		} else if oldTable != refTable || oldColumn != refColumn {
 			// typeref points to another column now. Replace the Foreign Key Constraint
 			v.stringBuilder.WriteString(fmt.Sprintf("ALTER TABLE %s DROP CONSTRAINT %s;\n", tableName, fkName))
 			v.stringBuilder.WriteString(fmt.Sprintf("ALTER TABLE %s ALTER COLUMN %s TYPE %s;\n",
 				tableName, attrName, datatype))
 			v.stringBuilder.WriteString(fmt.Sprintf(
 				"ALTER TABLE %s ADD CONSTRAINT "+fkName+" FOREIGN KEY(%s) REFERENCES %s(%s);\n",
-				tableName, attrName, typeRefNew.GetRef().Path[0], typeRefNew.GetRef().Path[1]))
+				tableName, attrName, refTable, refColumn))
 		}
 	} else {
 		syslDataType, attributeSize := getDataTypeAndSize(attrTypeNew)
@@ -280,5 +288,11 @@ func (v *ScriptView) getPostgresDataTypes(input string, size int64) string {
 		return "date"
 	default:
 		return "varchar (50)"
+	}
+}
+
+func (v *ScriptView) warnf(format string, args ...interface{}) {
+	if v.logger != nil {
+		v.logger.Warnf(format, args...)
 	}
 }
